@@ -247,7 +247,8 @@ Theorem C04_regenerated_rules_are_documented :
   krim_predict_proba = [SReturn (ESelfCall "_infer" [ESelfCall "_compute_kernel" [EVar "X"]])] /\
   sparse_linear_fit = golden_sparse_fit /\ sparse_mlp_fit = golden_sparse_fit /\
   kauri_fit_predict = [SReturn (EAttr (ESelfCall "fit" [EVar "X"; EVar "y"]) "labels_")] /\
-  kauri_predict = [SExpr (ECall "check_is_fitted" [ESelf]); SReturn (EMeth (ESelfAttr "tree_") "predict" [ECall "check_array" [EVar "X"]])] /\
+  kauri_predict = [SExpr (ECall "check_is_fitted" [ESelf]);
+                   SReturn (EMeth (ESelfAttr "tree_") "predict" [ECall "check_array" [EVar "X"; EKw "dtype" (EGlobal "np.float64")]])] /\
   kauri_score = [SReturn (ECall "gemini_objective" [ESelfCall "predict" [EVar "X"]; ESelfCall "_compute_kernel" [EVar "X"; EVar "y"]])] /\
   kauri_fit_tail = [SSetAttr "labels_" (EArgmax (EMatMul (EVar "Y") (EVar "Z")) 0%Z); SSetAttr "leaves_" (EArgmax (EVar "Z") 0%Z); SReturn ESelf] /\
   overrides = [("DiscriminativeModel", ["fit"; "fit_predict"; "predict_proba"; "predict"; "score"]); ("LinearModel", []); ("LinearMMD", []);
